@@ -1,4 +1,265 @@
-import Rngs.Model.Xoshiro
+/-
+  C16 — every collected 64-bit value of a JitterRng is handed out at most once.
+
+  The literal sentence "any other output call (next_u64, fill_bytes, …) discards a pending half
+  and starts a fresh collection" is FALSE for exactly one call shape (recorded known finding
+  `C16-fill-1to4-uses-pending-half`): with a half pending, `fill_bytes(n)` for 1 ≤ n ≤ 4 is served
+  by `next_u32` and returns bytes of the pending high half without reading the timer.
+  `full_statement_false` refutes the literal sentence (`FullStatement`); the remaining theorems
+  prove everything else, including the safety content: no half is ever returned twice, in any
+  history of several instances with clones.
+
+  `cost r = 1 + 3·(1 + r)` readings is the least a collection with `rounds = r` consumes.
+-/
+import Rngs.Lib.JitterOnce
 namespace Rngs.C16
-theorem placeholder : True := trivial
+open Rngs Rngs.JitterOnce
+
+/-! ## the literal statement, and its refutation -/
+
+/-- "Every `fill_bytes` call with a non-empty buffer (for every state, in particular with a half
+    pending; round counts 1..=255) starts a fresh collection that reads the timer at least
+    `rounds` times, and its outcome does not depend on the pending flag." -/
+def FullStatement : Prop :=
+  ∀ (j : Jitter.Rng) (rs : List U64) (n : Nat) (bs : List U8) (j' : Jitter.Rng) (rs' : List U64),
+    1 ≤ j.rounds → j.rounds ≤ 255 → 0 < n →
+    Jitter.fill n j rs = some ((bs, j'), rs') →
+      rs'.length + j.rounds ≤ rs.length ∧
+      Jitter.fill n { j with halfUsed := false } rs = some ((bs, j'), rs')
+
+/-- The exception, in general: a half is pending and 1..4 bytes are requested.  The call
+    succeeds on every reading list, reads nothing, returns the first `n` little-endian bytes of
+    the pending high half, and clears the flag. -/
+theorem fill_small_pending_finding (j : Jitter.Rng) (n : Nat) (rs : List U64)
+    (hp : j.halfUsed = true) (h1 : 1 ≤ n) (h4 : n ≤ 4) :
+    Jitter.fill n j rs = some (((U32.toLE (hi j.data)).take n, { j with halfUsed := false }), rs) :=
+  fill_small_pending hp h1 h4 rs
+
+/-- the witness `[next_u32, fill_bytes 3]`: after a `next_u32` the flag is set; `fill_bytes(3)`
+    then returns three bytes of the high half with an exhausted timer -/
+theorem full_statement_false : ¬ FullStatement := by
+  intro h
+  have := (h ⟨0x1122334455667788#64, 64, 0, true⟩ [] 3 _ _ []
+    (by decide) (by decide) (by decide)
+    (fill_small_pending (j := ⟨0x1122334455667788#64, 64, 0, true⟩) rfl (by decide) (by decide) [])).1
+  simp at this
+
+/-- what the witness call returns: bytes 44 33 22 of the pending half 0x11223344 -/
+example : Jitter.fill 3 ⟨0x1122334455667788#64, 64, 0, true⟩ [] =
+    some (([0x44#8, 0x33#8, 0x22#8], ⟨0x1122334455667788#64, 64, 0, false⟩), []) := by
+  rw [fill_small_pending rfl (by decide) (by decide)]; decide
+
+/-! ## two consecutive `next_u32` -/
+
+/-- With no half pending, two consecutive `next_u32` calls return the low and then the high half
+    of the value `next_u64` returns from the same state on the same readings; the first consumes
+    exactly the readings `next_u64` consumes, the second none; afterwards the generator is in the
+    state `next_u64` leaves it in. -/
+theorem nextU32_pair (j : Jitter.Rng) (rs : List U64) (v : U64) (j₁ : Jitter.Rng) (rs₁ : List U64)
+    (hp : j.halfUsed = false) (h : (Jitter.nextU64 j).run rs = some ((v, j₁), rs₁)) :
+    ∃ ja, (Jitter.nextU32 j).run rs = some ((lo v, ja), rs₁) ∧
+      (Jitter.nextU32 ja).run rs₁ = some ((hi v, j₁), rs₁) := by
+  have h' : Jitter.nextU64 j rs = some ((v, j₁), rs₁) := h
+  obtain ⟨f1, _, f3, _⟩ := nextU64_facts h'
+  refine ⟨{ j₁ with halfUsed := true }, ?_, ?_⟩
+  · show Jitter.nextU32 j rs = _
+    rw [nextU32_fresh hp, h']; rfl
+  · show Jitter.nextU32 _ rs₁ = _
+    rw [nextU32_pending rfl, ← f1]
+    cases j₁; simp_all
+
+/-- … and the first of the two blocks on an exhausted timer exactly when `next_u64` does. -/
+theorem nextU32_none_iff (j : Jitter.Rng) (rs : List U64) (hp : j.halfUsed = false) :
+    (Jitter.nextU32 j).run rs = none ↔ (Jitter.nextU64 j).run rs = none := by
+  show Jitter.nextU32 j rs = none ↔ Jitter.nextU64 j rs = none
+  rw [nextU32_fresh hp]; simp
+
+/-- a pending half is handed out by `next_u32` without reading the timer, and only once: the
+    flag is cleared -/
+theorem nextU32_pending_once (j : Jitter.Rng) (rs : List U64) (hp : j.halfUsed = true) :
+    (Jitter.nextU32 j).run rs = some ((hi j.data, { j with halfUsed := false }), rs) :=
+  nextU32_pending hp rs
+
+/-! ## calls that start a fresh collection -/
+
+/-- `next_u64` discards a pending half: its outcome is that of the same call with the flag
+    cleared, and when it succeeds it has read at least `1 + 3·(1 + rounds)` timer values and
+    leaves no half pending. -/
+theorem nextU64_fresh (j : Jitter.Rng) (rs : List U64) :
+    (Jitter.nextU64 j).run rs = (Jitter.nextU64 { j with halfUsed := false }).run rs ∧
+    ∀ v j' rs', (Jitter.nextU64 j).run rs = some ((v, j'), rs') →
+      rs'.length + cost j.rounds ≤ rs.length ∧ j'.halfUsed = false ∧ j'.data = v :=
+  ⟨rfl, fun _ _ _ h => ⟨(nextU64_facts h).2.2.2, (nextU64_facts h).2.2.1, (nextU64_facts h).1⟩⟩
+
+/-- `next_u32` with no half pending runs a whole collection and returns its low half -/
+theorem nextU32_fresh_collection (j : Jitter.Rng) (rs : List U64) (w : U32) (j' : Jitter.Rng)
+    (rs' : List U64) (hp : j.halfUsed = false) (h : (Jitter.nextU32 j).run rs = some ((w, j'), rs')) :
+    rs'.length + cost j.rounds ≤ rs.length ∧ w = lo j'.data ∧ j'.halfUsed = true :=
+  let f := (nextU32_facts h).2.2.2 hp
+  ⟨f.2.2, f.1, f.2.1⟩
+
+/-- `fill_bytes(n)`, `n > 0`, in every case except (half pending ∧ n ≤ 4): the outcome is that of
+    the same call with the flag cleared — the pending half is discarded — and a successful call
+    has read at least `1 + 3·(1 + rounds)` timer values.  (Weakening of the literal statement by
+    exactly the known finding.) -/
+theorem fill_fresh_partial (j : Jitter.Rng) (n : Nat) (rs : List U64) (h0 : 0 < n)
+    (hs : ¬ (j.halfUsed = true ∧ n ≤ 4)) :
+    (Jitter.fill n j).run rs = (Jitter.fill n { j with halfUsed := false }).run rs ∧
+    ∀ bs j' rs', (Jitter.fill n j).run rs = some ((bs, j'), rs') →
+      rs'.length + cost j.rounds ≤ rs.length :=
+  ⟨fill_flag hs rs, fun _ _ _ h => (fill_facts h).2.2 h0 hs⟩
+
+/-- equivalently, in the shape of the design document: `n ≥ 5` or no half pending -/
+theorem fill_fresh_partial' (j : Jitter.Rng) (n : Nat) (rs : List U64) (bs : List U8) (j' : Jitter.Rng)
+    (rs' : List U64) (hn : 5 ≤ n ∨ (0 < n ∧ j.halfUsed = false))
+    (h : (Jitter.fill n j).run rs = some ((bs, j'), rs')) :
+    rs'.length + cost j.rounds ≤ rs.length := by
+  refine (fill_fresh_partial j n rs ?_ ?_).2 bs j' rs' h
+  · omega
+  · intro hh
+    rcases hn with h5 | ⟨_, hp⟩
+    · omega
+    · rw [hp] at hh; cases hh.1
+
+/-- at least `rounds` readings, as the property words it (`cost r > r`) -/
+theorem cost_gt_rounds (r : Nat) : r < cost r := by unfold cost; omega
+
+/-! ## clones -/
+
+/-- a clone holds no pending half (and the same pool and round count) -/
+theorem clone_not_pending (j : Jitter.Rng) :
+    (Jitter.clone j).halfUsed = false ∧ (Jitter.clone j).data = j.data ∧
+      (Jitter.clone j).rounds = j.rounds :=
+  clone_facts j
+
+/-- The first output call of a clone, of whatever kind (`next_u32`, `next_u64`, `fill_bytes(n)`
+    with n > 0 — also 1 ≤ n ≤ 4), comes from a fresh collection, even if the original still holds
+    a pending half. -/
+theorem clone_first_output_fresh (j : Jitter.Rng) (rs : List U64) :
+    (∀ w j' rs', (Jitter.nextU32 (Jitter.clone j)).run rs = some ((w, j'), rs') →
+        rs'.length + cost j.rounds ≤ rs.length ∧ w = lo j'.data) ∧
+    (∀ v j' rs', (Jitter.nextU64 (Jitter.clone j)).run rs = some ((v, j'), rs') →
+        rs'.length + cost j.rounds ≤ rs.length) ∧
+    (∀ n bs j' rs', 0 < n → (Jitter.fill n (Jitter.clone j)).run rs = some ((bs, j'), rs') →
+        rs'.length + cost j.rounds ≤ rs.length) := by
+  refine ⟨fun w j' rs' h => ?_, fun v j' rs' h => ?_, fun n bs j' rs' h0 h => ?_⟩
+  · have := nextU32_fresh_collection (Jitter.clone j) rs w j' rs' rfl h
+    exact ⟨this.1, this.2.1⟩
+  · exact (nextU64_facts (j := Jitter.clone j) h).2.2.2
+  · exact (fill_facts (j := Jitter.clone j) h).2.2 h0 (fun hh => by cases hh.1)
+
+/-! ## no half is ever returned twice: several instances, one timer, clones -/
+
+/-- Run any history of `next_u32 i`, `next_u64 i`, `fill_bytes i n`, `clone i` on a system of
+    instances none of which holds a pending half initially (e.g. fresh from `new_with_timer`).
+    In the resulting trace (newest first), every call that hands out a pending half `w`
+    (`took = some w`) is matched: the *same instance's* previous call collected a value `v`, handed
+    out low-half bytes of it and left its high half pending (`left = some v`), `w = hi v`, and the
+    call itself leaves nothing pending.  A clone is a new instance index, so it can never be the
+    one that takes a half its original collected. -/
+theorem no_half_twice (ops : List MOp) (s s' : Sys) (tr : List Ev)
+    (h0 : ∀ j ∈ s.insts, j.halfUsed = false) (h : runM ops s [] = some (s', tr)) : Good tr :=
+  (run_preserves ops (Inv.init s h0) trivial h).2
+
+/-- … hence two hand-outs of a pending half by one instance are separated by a fresh collection
+    of that instance: they are halves of different collected values.  `tr = a ++ e₁ :: mid ++ e₂ :: c`
+    is newest-first: `e₂` happened before `e₁`. -/
+theorem halves_of_different_collections (ops : List MOp) (s s' : Sys) (tr a mid c : List Ev) (e₁ e₂ : Ev)
+    (h0 : ∀ j ∈ s.insts, j.halfUsed = false) (h : runM ops s [] = some (s', tr))
+    (hd : tr = a ++ e₁ :: (mid ++ e₂ :: c)) (hi : e₁.inst = e₂.inst)
+    (h1 : e₁.took ≠ none) (h2 : e₂.took ≠ none) :
+    ∃ x ∈ mid, x.inst = e₁.inst ∧ x.left ≠ none :=
+  (no_half_twice ops s s' tr h0 h).between hd hi h1 h2
+
+/-- the invariant behind it, for every reachable system: a set pending flag is backed by that
+    instance's own most recent call, which left exactly the current pool pending -/
+theorem pending_is_own_latest (ops : List MOp) (s s' : Sys) (tr : List Ev)
+    (h0 : ∀ j ∈ s.insts, j.halfUsed = false) (h : runM ops s [] = some (s', tr))
+    (i : Nat) (j : Jitter.Rng) (hj : s'.insts[i]? = some j) (hp : j.halfUsed = true) :
+    Owes i j.data tr :=
+  (run_preserves ops (Inv.init s h0) trivial h).1 i j hj hp
+
+/-- the events are truthful (1): `took = some w` means a half was pending, `w` is the high half
+    of the pool, the call returned it (or its first n ≤ 4 bytes), read no timer value, and
+    cleared the flag -/
+theorem took_truthful (op : MOp) (s s' : Sys) (e : Ev) (w : U32) (h : stepM op s = some (s', e))
+    (hw : e.took = some w) :
+    ∃ j, s.insts[op.target]? = some j ∧ e.inst = op.target ∧ j.halfUsed = true ∧ w = hi j.data ∧
+      s'.rs = s.rs ∧ s'.insts = s.insts.set op.target { j with halfUsed := false } ∧
+      (e.out = .u32 w ∨ ∃ n, 1 ≤ n ∧ n ≤ 4 ∧ e.out = .bytes ((U32.toLE w).take n)) :=
+  stepM_took h hw
+
+/-- the events are truthful (2): `took = none` means no pending half went into the output — output
+    and remaining readings are those of the same call with the target's flag cleared first — and
+    an output call (`next_u32`, `next_u64`, `fill_bytes` n > 0) ran a whole collection -/
+theorem took_none_truthful (op : MOp) (s s' : Sys) (e : Ev) (h : stepM op s = some (s', e))
+    (hw : e.took = none) :
+    ∃ j, s.insts[op.target]? = some j ∧
+      (stepM op ⟨s.insts.set op.target { j with halfUsed := false }, s.rs⟩).map
+        (fun r => (r.2.out, r.1.rs)) = some (e.out, s'.rs) ∧
+      (op.isOutput = true → s'.rs.length + cost j.rounds ≤ s.rs.length) :=
+  stepM_took_none h hw
+
+/-- a clone is a new instance without a pending half, whatever its original holds -/
+theorem clone_event (i : Nat) (s s' : Sys) (e : Ev) (h : stepM (.clone i) s = some (s', e)) :
+    e.inst = s.insts.length ∧ e.took = none ∧ e.left = none ∧
+      ∃ j, s.insts[i]? = some j ∧ s'.insts = s.insts ++ [Jitter.clone j] ∧ s'.rs = s.rs := by
+  simp only [stepM] at h
+  rcases hj : s.insts[i]? with _ | j
+  · simp [hj] at h
+  · simp only [hj, Option.some.injEq, Prod.mk.injEq] at h
+    obtain ⟨hs, he⟩ := h
+    subst hs he
+    exact ⟨rfl, rfl, rfl, j, rfl, rfl, rfl⟩
+
+/-! ## summary -/
+
+/-- **C16, as far as it is true.** -/
+theorem C16_partial :
+    -- two consecutive next_u32 = (low, high) of the next_u64 value, timer read only in the first
+    (∀ j rs v j₁ rs₁, j.halfUsed = false → (Jitter.nextU64 j).run rs = some ((v, j₁), rs₁) →
+      ∃ ja, (Jitter.nextU32 j).run rs = some ((lo v, ja), rs₁) ∧
+        (Jitter.nextU32 ja).run rs₁ = some ((hi v, j₁), rs₁)) ∧
+    -- next_u64 / next_u32 without pending half / fill_bytes outside the finding: fresh collection
+    (∀ j rs v j' rs', (Jitter.nextU64 j).run rs = some ((v, j'), rs') →
+      rs'.length + cost j.rounds ≤ rs.length) ∧
+    (∀ j rs w j' rs', j.halfUsed = false → (Jitter.nextU32 j).run rs = some ((w, j'), rs') →
+      rs'.length + cost j.rounds ≤ rs.length) ∧
+    (∀ j n rs bs j' rs', 0 < n → ¬ (j.halfUsed = true ∧ n ≤ 4) →
+      (Jitter.fill n j).run rs = some ((bs, j'), rs') → rs'.length + cost j.rounds ≤ rs.length) ∧
+    -- a clone holds no half
+    (∀ j, (Jitter.clone j).halfUsed = false) ∧
+    -- no half twice
+    (∀ ops s s' tr, (∀ j ∈ s.insts, j.halfUsed = false) → runM ops s [] = some (s', tr) → Good tr) :=
+  ⟨nextU32_pair,
+   fun j rs _ _ _ h => ((nextU64_fresh j rs).2 _ _ _ h).1,
+   fun j rs w j' rs' hp h => (nextU32_fresh_collection j rs w j' rs' hp h).1,
+   fun j n rs bs j' rs' h0 hs h => (fill_fresh_partial j n rs h0 hs).2 bs j' rs' h,
+   fun _ => rfl,
+   no_half_twice⟩
+
+/-! ## non-vacuity -/
+
+/-- `rounds = 1`, 21 readings: enough for three collections of 7 readings each -/
+def j0 : Jitter.Rng := { Jitter.newWithTimer with rounds := 1 }
+def rs0 : List U64 := [1, 0, 4, 0, 0, 9, 0, 20, 0, 27, 0, 0, 39, 0, 50, 0, 51, 0, 0, 60, 0]
+
+/-- the hypothesis of `nextU32_pair` is satisfiable -/
+example : ((Jitter.nextU64 j0).run rs0).map (fun r => (r.1.1, r.2.length)) =
+    some (0x8e4823bf20310f3a#64, 14) := by
+  set_option maxRecDepth 100000 in decide +kernel
+
+/-- a history with a clone: instance 0 takes a low half; its clone (instance 1) then collects
+    afresh (`took = none`) and later serves `fill_bytes(3)` from *its own* pending half; instance 0
+    gets its own high half 0x8e4823bf exactly once -/
+example : (runM [.u32 0, .clone 0, .u32 1, .u32 0, .fill 1 3, .u64 0] ⟨[j0], rs0⟩ []).map
+      (fun r => (r.2.reverse, r.1.rs)) =
+    some ([⟨0, none, some 0x8e4823bf20310f3a#64, .u32 0x20310f3a#32⟩,
+           ⟨1, none, none, .cloned 1⟩,
+           ⟨1, none, some 0x63a5377db0fa7fab#64, .u32 0xb0fa7fab#32⟩,
+           ⟨0, some 0x8e4823bf#32, none, .u32 0x8e4823bf#32⟩,
+           ⟨1, some 0x63a5377d#32, none, .bytes [0x7d#8, 0x37#8, 0xa5#8]⟩,
+           ⟨0, none, none, .u64 0x9d270abb5a003457#64⟩], []) := by
+  set_option maxRecDepth 100000 in decide +kernel
+
 end Rngs.C16
